@@ -166,7 +166,7 @@ def directed_bytes(s, e, r, tail=None):
     """a byte string on which spec s's fixed bits match (fetch endianness e)."""
     n = s.fix.size
     word = s.fix.ival | (r.getrandbits(n) & ~s.mask.ival & ((1 << n) - 1)) if n else 0
-    bs = word.to_bytes(n // 8, "little")[::e]
+    bs = word.to_bytes((n + 7) // 8, "little")[: n // 8][::e]
     if tail is None:
         tail = r.choice([0, 0, 1, 2, 4, 8, 11])
     return bs + bytes(r.getrandbits(8) for _ in range(tail))
@@ -188,3 +188,136 @@ def all_spec_modules():
         if hasattr(m, "ISPECS"):
             ok[mi.name] = m
     return ok, bad
+
+
+# ---------------------------------------------------------------------------------------
+# decoding helpers shared by C04 / C05 / C11 / C17
+# ---------------------------------------------------------------------------------------
+
+import re as _re
+_ADDR = _re.compile(r" at 0x[0-9a-fA-F]+")
+
+
+def _canon(v):
+    try:
+        from amoco.cas.expressions import exp
+        if isinstance(v, exp):
+            return "exp:%s:%d" % (v, v.size)
+    except Exception:
+        pass
+    return _ADDR.sub("", repr(v))
+
+
+def fingerprint(i):
+    """canonical, comparable description of a decoded instruction (no addresses / ids)."""
+    if i is None:
+        return None
+    try:
+        ops = [str(o) for o in i.operands]
+    except Exception as e:
+        ops = ["<str raises %s>" % type(e).__name__]
+    misc = sorted((str(k), _canon(v)) for k, v in i.misc.items() if v is not None) if hasattr(i, "misc") else []
+    attrs = []
+    if i.spec is not None:
+        for k in i.spec.iattr:
+            if k != "mnemonic" and hasattr(i, k):
+                attrs.append((k, _canon(getattr(i, k))))
+    return [bytes(i.bytes).hex(), i.mnemonic, ops, i.type, misc, sorted(attrs), i.spec.format if i.spec else None]
+
+
+def reset(d):
+    d._disassembler__i = None
+
+
+def real_decode(d, bs, **kargs):
+    """d(bs) from a clean pending state; returns ('ok', instr) | ('none', None) | ('raise', ExcName)"""
+    reset(d)
+    try:
+        i = d(bs, **kargs)
+    except BaseException as e:
+        return ("raise", type(e).__name__)
+    return ("ok", i) if i is not None else ("none", None)
+
+
+def ref_scan(d, specs, bs, e, **kargs):
+    """most-constrained-first scan over the whole weight-sorted list, with the same pending-prefix
+    protocol as disassembler.__call__ — independent of the decision tree."""
+    pending = None
+    cur = bs
+    try:
+        while True:
+            hit = None
+            for s in specs:
+                try:
+                    i = s.decode(cur, e, i=pending, iclass=d.iclass)
+                except (acore.DecodeError, acore.InstructionError):
+                    continue
+                hit = (s, i)
+                break
+            if hit is None:
+                return ("none", None)
+            s, i = hit
+            if i.spec.pfx is True:
+                pending = i
+                cur = cur[s.mask.size // 8:]
+                continue
+            elif i.spec.pfx == "xdata":
+                i.xdata(i, **kargs)
+            return ("ok", i)
+    except BaseException as ex:
+        return ("raise", type(ex).__name__)
+
+
+class AttemptTrace(object):
+    """records every ispec.decode call made while active: (pending byte count, input length, spec, outcome)"""
+
+    def __init__(self):
+        self.log = []
+
+    def __enter__(self):
+        self.orig = acore.ispec.decode
+        log = self.log
+        orig = self.orig
+
+        def traced(s, istr, endian=1, i=None, iclass=acore.instruction):
+            plen = len(i.bytes) if i is not None else 0
+            try:
+                r = orig(s, istr, endian, i, iclass)
+            except (acore.DecodeError, acore.InstructionError):
+                log.append((plen, len(istr), s, 0))
+                raise
+            except BaseException as ex:
+                log.append((plen, len(istr), s, 2))
+                raise
+            log.append((plen, len(istr), s, 1))
+            return r
+        acore.ispec.decode = traced
+        return self
+
+    def __exit__(self, *a):
+        acore.ispec.decode = self.orig
+        return False
+
+
+def gen_inputs(isa_obj, specs, r, n_directed, n_random, prefixes=True):
+    """byte strings for one ISA mode: spec-directed (+ mutated / truncated / prefixed) and random."""
+    e = -1 if isa_obj.be else 1
+    out = []
+    pf = [s for s in specs if s.pfx is True]
+    for _ in range(n_directed):
+        s = r.choice(specs)
+        bs = directed_bytes(s, e, r)
+        k = r.random()
+        if k < 0.15 and bs:
+            j = r.randrange(len(bs))
+            bs = bs[:j] + bytes([bs[j] ^ (1 << r.randrange(8))]) + bs[j + 1:]
+        elif k < 0.25:
+            bs = bs[: r.randrange(0, len(bs) + 1)]
+        if prefixes and pf and r.random() < 0.3:
+            for _ in range(r.choice([1, 1, 2, 3])):
+                p = r.choice(pf)
+                bs = directed_bytes(p, e, r, tail=0) + bs
+        out.append(("directed", bs))
+    for _ in range(n_random):
+        out.append(("random", bytes(r.getrandbits(8) for _ in range(r.randrange(0, isa_obj.maxlen + 5)))))
+    return out
